@@ -8,14 +8,23 @@
    real boltdbresumer, Trace_Session judges the reported differences.
 3. implementation: real torrent.Session driven through the public API (and rainrpc for a sample) with sequential
    op sequences, deterministic probes and k-way concurrent bursts; TLC (Trace_Session) searches a linearization.
+   Among the probes: databases pre-populated with records that FAIL TO LOAD (one class per way the loader can fail) whose
+   ids get a new owner (C14.record: nothing is handed down by the leftover bucket); among the concurrent histories: adds
+   with one explicit id / one info-hash gated inside the storage provider (the first caller sits between its duplicate
+   check and its registry insert while the others run to completion).
+The design-level part runs in a thread beside the implementation-level part; the drivers run beside the judge.
 """
-import json, os, re
+import json, os, queue, re, shutil, threading
 import vlib
+
+_lock = threading.RLock()       # evidence counters / scratch numbering are shared by the threads of this check
+_vn = [0]
 
 ASIS_LEADS = [  # (cfg, invariant the code as-is is expected to break, what it means)
     ("MC_Session_asis_orphan.cfg", "NoOrphans", "two concurrent adds with one explicit id both pass the check; the second insert drops the first torrent from the map with its port still taken"),
     ("MC_Session_asis_db.cfg", "RegistryIsDatabase", "remove(id) racing add(id), or CleanDatabase after an invalid record was re-added: a registered torrent without a record"),
     ("MC_Session_asis_crash.cfg", "NoCrash", "AddTracker / Close on a torrent whose record is gone dereferences a nil bucket"),
+    ("MC_Session_sparse.cfg", "RecordIsOwn", "a resume write that stores only non-empty values: a record written over the leftover bucket of a record that failed to load inherits the previous owner's bitfield"),
 ]
 
 
@@ -33,24 +42,68 @@ def run(ctx):
         return selftest(ctx)
 
     fast = bool(os.environ.get("VERIF_C14_FAST"))   # development / mutation runs: skip the code-independent design-level part
+    mc_err = []
+
+    def mc():
+        try:
+            design_level(ctx)
+        except Exception as ex:      # re-raised in the main thread
+            mc_err.append(ex)
+
+    th = threading.Thread(target=mc)
     if fast:
         ctx.assumptions.append("VERIF_C14_FAST: design-level model checking skipped in this run")
-    else:
-        design_level(ctx)
-    implementation_level(ctx, fast)
+        th = threading.Thread(target=lambda: None)
+    th.start()
+    try:
+        implementation_level(ctx, fast)
+    finally:
+        th.join()
+    if mc_err:
+        raise mc_err[0]
+
+
+def mc_one(ctx, cfg, workers, timeout):
+    """One exhaustive TLC run of MC_Session (thread-safe variant of vlib.tlc_mc). Returns (ok, out)."""
+    with _lock:
+        d = ctx._spec_copy()
+    rc, out, dt = ctx._tlc(d, "MC_Session.tla", cfg, [], timeout, workers)
+    gen, dist, depth = ctx._parse_counts(out)
+    ok = rc == 0 and "Model checking completed. No error has been found" in out
+    with _lock:
+        ctx.mc_runs.append({"module": "MC_Session", "cfg": cfg, "generated": gen, "distinct": dist, "depth": depth, "ok": ok, "wall_s": round(dt, 1)})
+        ctx.cov["states"] += dist
+        ctx.cov["transitions"] += gen
+    vlib.log("TLC MC MC_Session/%s: %d generated, %d distinct, depth %d, %.1fs, ok=%s" % (cfg, gen, dist, depth, dt, ok))
+    return ok, out
 
 
 def design_level(ctx):
-    # ---- 1. design level
-    ctx.tlc_mc("MC_Session", "MC_Session.cfg", timeout=900, workers=8)
-    if not ctx.quick():
-        ctx.tlc_mc("MC_Session", "MC_Session_full.cfg", timeout=1500, workers=8)
+    # ---- 1. design level: the intended design keeps the invariants (MC_Session: 3 ids x 3 ports x 2 callers;
+    #      MC_Session_leftover: one caller, every operation incl. damaged records and CleanDatabase; thorough: the same with
+    #      2 callers), the as-is / sparse-write variants break them (required counterexamples)
+    import concurrent.futures as cf
     leads = {}
-    for cfg, inv, what in ASIS_LEADS:
-        ok, out = ctx.tlc_mc("MC_Session", cfg, timeout=600, workers=4, expect_ok=False)
+
+    def positive(cfg):
+        ok, out = mc_one(ctx, cfg, 4, 1500)
+        if not ok:
+            raise vlib.MachineryError("TLC model checking of MC_Session/%s failed (design-level spec error):\n%s" % (cfg, out[-5000:]))
+
+    def lead(job):
+        cfg, inv, what = job
+        ok, out = mc_one(ctx, cfg, 2, 600)
         if ok or ("Invariant %s is violated" % inv) not in out:
             raise vlib.MachineryError("as-is model %s no longer violates %s - specification drifted:\n%s" % (cfg, inv, out[-1500:]))
-        leads[inv] = {"lead": what, "counterexample_states": len(re.findall(r"\nState \d+: ", out))}
+        with _lock:
+            leads[inv] = {"lead": what, "counterexample_states": len(re.findall(r"\nState \d+: ", out))}
+
+    jobs = [(positive, "MC_Session.cfg"), (positive, "MC_Session_leftover.cfg")]
+    if not ctx.quick():
+        jobs.append((positive, "MC_Session_full.cfg"))
+    jobs += [(lead, j) for j in ASIS_LEADS]
+    with cf.ThreadPoolExecutor(max_workers=ctx.pick(2, 3)) as pool:
+        list(pool.map(lambda j: j[0](j[1]), jobs))
     ctx.extra["asis_design_leads"] = leads
 
 
@@ -61,14 +114,28 @@ def implementation_level(ctx, fast):
     only = [x for x in os.environ.get("VERIF_C14_ONLY", "").split(",") if x]   # development / mutation runs
     if only:
         ctx.assumptions.append("VERIF_C14_ONLY=%s: reduced run" % ",".join(only))
-    if not only or "codec" in only:
-        codec_level(ctx, drv)
     session_level(ctx, drv, fast, only)
 
 
 def codec_level(ctx, drv):
     # ---- 2. codec
-    cases, _ = ctx.tlc_gen("MC_Session_codec", "MC_Session_codec.cfg", timeout=300)
+    # (thread-safe variant of vlib.tlc_gen: the design-level thread takes scratch copies of the specifications too)
+    with _lock:
+        d = ctx._spec_copy()
+    rc, out, dt = ctx._tlc(d, "MC_Session_codec.tla", "MC_Session_codec.cfg", [], 300, 1)
+    cases = []
+    for line in out.splitlines():
+        line = line.strip()
+        if line.startswith('"@@'):
+            try:
+                cases.append(json.loads(json.loads(line)[2:]))
+            except Exception:
+                pass
+    gen, dist, _ = ctx._parse_counts(out)
+    vlib.log("TLC GEN MC_Session_codec: %d items, %d states, %.1fs rc=%d" % (len(cases), dist, dt, rc))
+    with _lock:
+        ctx.cov["states"] += dist
+        ctx.cov["transitions"] += gen
     if len(cases) < 500:
         raise vlib.MachineryError("codec generator produced only %d cases" % len(cases))
     cp = ctx.path("codec_cases.ndjson")
@@ -81,29 +148,65 @@ def codec_level(ctx, drv):
 
 def session_level(ctx, drv, fast, only):
     # ---- 3. real session
-    plan = [  # (mode, n, ops/rounds, k)
-        ("probe", 8, 0, 1),
-        ("seq", 60 if fast else ctx.pick(200, 2500), 12, 1),
-        ("burst", ctx.pick(30, 300), 3, 3),
-        ("burst", ctx.pick(6, 60), 2, 8),
-        ("burst-sameid", ctx.pick(3, 8), 2, ctx.pick(4, 8)),
-        ("race", ctx.pick(4, 12), 0, 2),           # gated RemoveTorrent(a) || AddTorrent(ID: a)
+    plan = [  # (index = seed offset, mode, n, ops/rounds, k); the long ones first: the short ones are recorded while TLC judges
+        (1, "seq", 60 if fast else ctx.pick(200, 2500), 12, 1),
+        (2, "burst", ctx.pick(30, 300), 3, 3),
+        (0, "probe", ctx.pick(12, 24), 0, 1),      # incl. 4 x re-add over leftover records (6 classes of unloadable record each)
+        (3, "burst", ctx.pick(6, 60), 2, 8),
+        (4, "burst-sameid", ctx.pick(3, 8), 2, ctx.pick(4, 8)),
+        (5, "race", ctx.pick(4, 12), 0, 2),           # gated RemoveTorrent(a) || AddTorrent(ID: a)
+        (6, "race-add", ctx.pick(10, 40), 0, 3),      # gated AddTorrent(ID: a) || AddTorrent/AddURI(ID: a) (|| a third call)
     ]
-    for i, (mode, n, ops, k) in enumerate(plan):
-        if only and mode not in only:
-            continue
-        chunk = 400 if mode == "seq" else 60
-        done = 0
-        part = 0
-        while done < n:
-            m = min(chunk, n - done)
-            tp = ctx.path("tr_%d_%s_%d.ndjson" % (i, mode, part))
-            # every chunk is its own seeded run of the driver (trace indices restart at 0: the seed makes them distinct)
-            ctx.run_drv(drv, ["run", "-mode", mode, "-seed", str(ctx.seed * 1000 + i * 100 + part), "-n", str(m), "-ops", str(ops),
-                              "-k", str(k), "-par", "8", "-out", tp], timeout=1500)
-            judge(ctx, tp, mode)
-            done += m
-            part += 1
+    q = queue.Queue()
+    stop = threading.Event()
+
+    def produce():
+        try:
+            for i, mode, n, ops, k in plan:
+                if only and mode not in only:
+                    continue
+                chunk = 400 if mode == "seq" else 60
+                done = 0
+                part = 0
+                while done < n and not stop.is_set():
+                    m = min(chunk, n - done)
+                    tp = ctx.path("tr_%d_%s_%d.ndjson" % (i, mode, part))
+                    # every chunk is its own seeded run of the driver (trace indices restart at 0: the seed makes them distinct)
+                    ctx.run_drv(drv, ["run", "-mode", mode, "-seed", str(ctx.seed * 1000 + i * 100 + part), "-n", str(m), "-ops", str(ops),
+                                      "-k", str(k), "-par", "8", "-out", tp], timeout=1500)
+                    q.put((mode, tp, n > 60))
+                    done += m
+                    part += 1
+            q.put(None)
+        except BaseException as ex:
+            q.put(ex)
+
+    th = threading.Thread(target=produce)
+    th.start()
+    small = []
+    try:
+        if not only or "codec" in only:
+            codec_level(ctx, drv)      # (while the first histories are being recorded)
+        while True:
+            item = q.get()
+            if item is None:
+                break
+            if isinstance(item, BaseException):
+                raise item
+            mode, tp, big = item
+            if big:
+                judge(ctx, tp, mode)
+            else:
+                small.append(tp)       # few traces each: judged together (every TLC run costs a JVM start)
+        if small:
+            tp = ctx.path("tr_small.ndjson")
+            with open(tp, "w") as out:
+                for f in small:
+                    shutil.copyfileobj(open(f), out)
+            judge(ctx, tp, "probes+races")
+    finally:
+        stop.set()
+        th.join()
     if only:
         return
     if ctx.extra.get("traces_abandoned_env", 0) * 10 > ctx.cov["evaluations"] - 1215:
@@ -111,6 +214,11 @@ def session_level(ctx, drv, fast, only):
     for tag in ("add.take-noport", "add.check-duplicate", "add.check-storage", "add.write-db-fault", "addmagnet.write-db-fault", "remove.dbdel-fault"):
         if ctx.obligation_counts.get("C14.leak." + tag, 0) == 0:
             raise vlib.MachineryError("failure point %s was never driven (vacuous run)" % tag)
+    for cls in ("port", "ihash", "version", "toomany", "bitfield", "storage"):
+        if ctx.obligation_counts.get("C14.record.readd_over_leftover." + cls, 0) == 0:
+            raise vlib.MachineryError("no torrent was added over a leftover record of class %s (vacuous run)" % cls)
+    if ctx.obligation_counts.get("C14.race_add.first_add_held_while_others_ran", 0) == 0:
+        raise vlib.MachineryError("no gated history of concurrent adds with one id was recorded (vacuous run)")
     if ctx.obligation_counts.get("C14.obs", 0) == 0 or ctx.obligation_counts.get("C14.restart", 0) == 0:
         raise vlib.MachineryError("core obligations were never evaluated (vacuous run)")
 
@@ -121,14 +229,18 @@ def validate(ctx, trace_path, ntraces, timeout=1500):
     """Trace_Session run (local variant of vlib.tlc_validate): depth-first state queue, so that an accepted file costs about
     one state per line (the specification stops TLC at the first accepting interleaving); few GC / JIT threads, the run is
     short and single-threaded.  Returns dict(ok, viol=(line, tag)|None, soft=[(line, tag)], hwm, out)."""
-    import shutil, time
-    d = ctx._spec_copy()
+    with _lock:
+        _vn[0] += 1
+        d = os.path.dirname(ctx.path("val%d" % _vn[0], "x"))
+    for f in ("Session.tla", "Trace_Session.tla", "Trace_Session.cfg"):
+        shutil.copy(os.path.join(vlib.VERIF, "spec", f), d)
     shutil.copy(trace_path, os.path.join(d, "trace.ndjson"))
     env = {"JAVA_TOOL_OPTIONS": "-Xss64m -XX:ParallelGCThreads=2 -XX:CICompilerCount=2 -Dtlc2.tool.queue.IStateQueue=StateDeque"}
     rc, out, dt = ctx._tlc(d, "Trace_Session.tla", "Trace_Session.cfg", [], timeout, 1, env)
     gen, dist, depth = ctx._parse_counts(out)
-    ctx.cov["states"] += dist
-    ctx.cov["transitions"] += gen
+    with _lock:
+        ctx.cov["states"] += dist
+        ctx.cov["transitions"] += gen
     soft = sorted({(int(m.group(1)), m.group(2)) for m in re.finditer(r'@@SOFT (\d+) ([^"\s]+)', out)})
     mv = re.search(r'@@VIOL (\d+) ([^"\s]+)', out)
     mr = re.search(r"@@REJECT\s+(\d+)\s+(\d+)", out)
@@ -155,8 +267,9 @@ def split_traces(path):
     return traces
 
 
-def history_class(evs):
-    """Class of a concurrent history, used in the violation signature (which calls overlapped on one id)."""
+def history_class(evs, focus=None):
+    """Class of a history, used in the violation signature: which calls overlapped on one id; whether the call under
+    judgement (focus) gave a new owner to the id of a record that had failed to load."""
     open_calls = {}
     cls = set()
     for e in evs:
@@ -175,6 +288,14 @@ def history_class(evs):
             open_calls[e["g"]] = e
         elif e["op"] == "ret":
             open_calls.pop(e["g"], None)
+    # a torrent added under the id of a record that failed to load (the bucket of the leftover is re-used)
+    left = {}
+    for e in evs:
+        if e["op"] == "call" and e["name"] == "Reopen":
+            for k, i in enumerate(e.get("corrupt", [])):
+                left[i] = (e.get("cclass") or ["?"] * (k + 1))[k]
+        elif e["op"] == "call" and e["name"] == "Add" and e.get("r_res") == "ok" and e.get("id") in left and (focus is None or e is focus):
+            cls.add("readd-over-leftover(%s)" % left[e["id"]])
     names = [e.get("name") for e in evs if e["op"] == "call"]
     if "Clean" in names and any(e["op"] == "call" and e["name"] == "Add" and e.get("r_res") == "ok" and e.get("id") in
                                 [c for x in evs if x["op"] == "call" and x["name"] == "Reopen" for c in x.get("corrupt", [])] for e in evs):
@@ -205,6 +326,26 @@ def account(ctx, traces):
         ctx.oblig("C14.restart", sum(1 for e in calls if e["name"] == "Reopen"))
         ctx.oblig("C14.compact", sum(1 for e in calls if e["name"] == "Compact"))
         ctx.oblig("C14.rpc", sum(1 for e in calls if e.get("rpc")))
+        # leftover records (C14.record): adds whose id belongs to a record that failed to load, by class of failure
+        left = {}
+        for e in calls:
+            if e["name"] == "Reopen":
+                for k, i in enumerate(e.get("corrupt", [])):
+                    left[i] = (e.get("cclass") or ["?"] * (k + 1))[k]
+            elif e["name"] == "Add" and e.get("id") in left:
+                if e.get("r_res") == "ok":
+                    ctx.oblig("C14.record.readd_over_leftover." + left[e["id"]], 1)
+                    ctx.oblig("C14.record.readd_over_leftover", 1)
+                    del left[e["id"]]
+        if evs and str(evs[0].get("mode", "")).startswith("race-add"):
+            ctx.oblig("C14.race_add.histories", 1)
+            # the gate worked: another call on the contested id began AND returned between call and ret of the first add
+            first = next((k for k, e in enumerate(evs) if e["op"] == "call" and e["name"] == "Add" and e.get("g") == 2), None)
+            if first is not None:
+                ret = next((k for k in range(first, len(evs)) if evs[k]["op"] == "ret" and evs[k].get("g") == 2), len(evs))
+                inner = [e for e in evs[first + 1:ret] if e["op"] == "ret" and e.get("g") != 2]
+                if inner:
+                    ctx.oblig("C14.race_add.first_add_held_while_others_ran", 1)
         if any(e.get("r_res") == "env" for e in calls):
             ctx.extra["traces_abandoned_env"] = ctx.extra.get("traces_abandoned_env", 0) + 1
         conc = 0
@@ -223,18 +364,19 @@ def account(ctx, traces):
 def report(ctx, trace, pos, tag, mode):
     evs = [json.loads(x) for x in trace]
     ev = evs[pos - 1] if 0 < pos <= len(evs) else {}
-    cls = history_class(evs)
+    mode = evs[0].get("mode", mode) if evs else mode
     # the call a quiescent observation belongs to is the last call before it
     last_call = {}
     for e in evs[:pos]:
         if e["op"] == "call":
             last_call = e
+    cls = history_class(evs[:pos], last_call)
     if ev.get("op") == "Codec":
         case = ev.get("case", {})
         dev = ",".join("%s=%s" % (k, v) for k, v in sorted(case.items()) if v not in (0, False))
         # invalid UTF-8 classes of harness/c14/codec.go: trk=6, url=4, fp=4, name=3
         bad_utf8 = case.get("trk") == 6 or case.get("url") == 4 or case.get("fp") == 4 or case.get("name") == 3
-        fields = sorted(set(ev.get("neq", []) + ev.get("jneq", []) + [x.split(":")[0] for x in ev.get("pneq", [])]))
+        fields = sorted(set(ev.get("neq", []) + ev.get("oneq", []) + ev.get("jneq", []) + [x.split(":")[0] for x in ev.get("pneq", [])]))
         sig = "tag=%s codec cause=%s fields=%s err=%s" % (tag, "invalid-utf8" if bad_utf8 else "other", ",".join(fields), ev.get("err", "")[:60])
         what = "resume record with %s does not read back equal (%s)" % (dev or "all defaults", tag)
         if sig in ctx.extra.setdefault("codec_signature_counts", {}):
@@ -311,7 +453,7 @@ def selftest(ctx):
     """Corrupt one recorded field of an accepted trace and require the rejection (BUILDING.md rule 6)."""
     drv = ctx.build_go("c14")
     tp = ctx.path("st.ndjson")
-    ctx.run_drv(drv, ["run", "-mode", "probe", "-seed", str(ctx.seed), "-n", "6", "-ops", "0", "-k", "1", "-out", tp], timeout=300)
+    ctx.run_drv(drv, ["run", "-mode", "probe", "-seed", str(ctx.seed), "-n", "9", "-ops", "0", "-k", "1", "-par", "3", "-out", tp], timeout=300)
     traces = split_traces(tp)
     base = traces[5]          # restart-full: accepted on the unchanged tree
     ok = validate(ctx, _write(ctx, base), 1)
@@ -338,6 +480,17 @@ def selftest(ctx):
     mutate(lambda evs: last_obs(evs)["live"][0].__setitem__("name", "other"), "C14.restart.live")
     mutate(lambda evs: last_obs(evs)["db"].pop(), "C14.db")
     mutate(lambda evs: last_obs(evs)["live"][1].__setitem__("cnt", ["0", "0", "0", "0"]), "C14.restart.live")
+    # re-add over leftover records: the record of a new owner that was never started shows a bitfield / an info dictionary
+    base = traces[8]
+    if not validate(ctx, _write(ctx, base), 1)["ok"]:
+        raise vlib.MachineryError("selftest base trace (readd-over-leftover) is not accepted")
+
+    def stopped_rec(evs, want_meta):
+        o = last_obs(evs)
+        return [r for r in o["db"] if not r["started"] and r["bf"] == "" and r["meta"] == want_meta][0]
+
+    mutate(lambda evs: stopped_rec(evs, True).__setitem__("bf", "e0"), "C14.record.inherited-bitfield")
+    mutate(lambda evs: stopped_rec(evs, False).__setitem__("meta", True), "C14.record.inherited-info")
     ctx.extra["selftest"] = muts
     ctx.oblig("C14.selftest", len(muts))
 
